@@ -65,11 +65,11 @@ let handle = function
   | ["ia"; rid; rq; aid; qr; rc; qd; an; ns; ar; aq] ->
       let lst s = if s = "-" then [] else List.map ni (String.split_on_char ',' s) in
       let a = { m_id = ni aid; m_qr = (qr = "1"); m_tc = false; m_rcode = ni rc; m_qd = ni qd; m_an = ni an;
-                m_ns = ni ns; m_ar = ni ar; m_qs = (if aq = "bad" then None else Some (lst aq)) } in
+                m_ns = ni ns; m_ar = ni ar; m_qs = (if aq = "bad" then None else Some (lst aq)); m_ans = Some [] } in
       if c15_is_answer { r_id = ni rid; r_qs = lst rq } a then "true" else "false"
   | ["dg"; retries; timeout; script] ->
       let mk id tc rc qd an qs = PMsg { m_id = n_of_int id; m_qr = true; m_tc = tc; m_rcode = n_of_int rc; m_qd = n_of_int qd;
-                                       m_an = n_of_int an; m_ns = N0; m_ar = N0; m_qs = qs } in
+                                       m_an = n_of_int an; m_ns = N0; m_ar = N0; m_qs = qs; m_ans = Some [] } in
       let q l = Some (List.map n_of_int l) in
       let pkt id = function
         | 'G' | 'U' -> mk id false 0 1 0 (q [0]) | 'T' -> mk id true 0 1 0 (q [0]) | 'K' -> mk id true 0 1 1 (q [0]) | 'X' -> mk id false 0 1 1 (q [0])
@@ -95,33 +95,49 @@ let handle = function
        | DErr (e, t) -> Printf.sprintf "Err %s t=%d sends=%d"
                           (match int_of_n e with 1 -> "connect" | 2 -> "send" | 3 -> "receive" | _ -> "timeout") (int_of_n t) (int_of_n sends))
   | "sm" :: idle :: evs ->
-      (* s<k> submit by caller k (question token k); f connection failure;
-         p<id>:<qr>:<rcode>:<qd>:<an>:<tc>:<qs> a reply (qs: comma list of tokens, - empty, bad) *)
+      (* s<k> single-response submit by caller k (question token k); x<k> AXFR and y<k> IXFR
+         multi-response submit; f connection failure;
+         p<id>:<qr>:<rcode>:<qd>:<an>:<tc>:<qs>:<ans> a reply (qs: comma list of tokens, - empty, bad;
+         ans: - empty, bad = answer() fails, else comma list of s<serial> | o | e = unparsable record) *)
       let lst s = if s = "-" then [] else List.map ni (String.split_on_char ',' s) in
+      let ans s = if s = "bad" then None else if s = "-" then Some [] else
+        Some (List.map (fun t -> match t.[0] with
+                                 | 's' -> Some (RSoa (ni (String.sub t 1 (String.length t - 1))))
+                                 | 'o' -> Some ROther | 'e' -> None | _ -> failwith "bad record") (String.split_on_char ',' s)) in
+      let num t = ni (String.sub t 1 (String.length t - 1)) in
       let ev t =
         match t.[0] with
-        | 's' -> let k = ni (String.sub t 1 (String.length t - 1)) in ESubmit (k, [k], false, false)
+        | 's' -> ESubmit (num t, [num t], false, false, XDone)
+        | 'x' -> ESubmit (num t, [num t], true, false, XAxfrInit)
+        | 'y' -> ESubmit (num t, [num t], true, false, XIxfrInit)
         | 'f' -> EFail (n_of_int 1)
         | 'p' -> (match String.split_on_char ':' (String.sub t 1 (String.length t - 1)) with
-                  | [id; qr; rc; qd; an; tc; qs] ->
+                  | [id; qr; rc; qd; an; tc; qs; a] ->
                       EReply { m_id = ni id; m_qr = (qr = "1"); m_tc = (tc = "1"); m_rcode = ni rc; m_qd = ni qd; m_an = ni an;
-                               m_ns = N0; m_ar = N0; m_qs = (if qs = "bad" then None else Some (lst qs)) }
+                               m_ns = N0; m_ar = N0; m_qs = (if qs = "bad" then None else Some (lst qs)); m_ans = ans a }
                   | _ -> failwith "bad reply event")
         | _ -> failwith "bad event" in
       let evl = List.map ev evs in
       (match c15_demux (idle = "1") evl with
        | Ok s ->
-           let callers = List.filter_map (function ESubmit (k, _, _, _) -> Some k | _ -> None) evl in
-           let term = List.filter (fun ((_, mu), d) -> (match d with DAnswer _ | DWrong -> not mu | _ -> true)) s.st_log in
+           let callers = List.filter_map (function ESubmit (k, _, mu, _, _) -> Some (k, mu) | _ -> None) evl in
+           let is_term ((_, mu), d) = (match d with DAnswer _ | DWrong -> not mu | _ -> true) in
+           let term = List.filter is_term s.st_log in
            let order = String.concat "," (List.map (fun ((c, _), _) -> string_of_int (int_of_n c)) term) in
-           let cls c =
+           let cls (c, mu) =
              let wire = (match List.find_opt (fun ((c', _), _) -> c' = c) s.st_sent with
                          | Some ((_, i), _) -> string_of_int (int_of_n i) | None -> "-") in
-             let r = (match List.find_opt (fun ((c', _), _) -> c' = c) term with
-                      | Some (_, DAnswer m) -> Printf.sprintf "A%d.%d.%d" (int_of_n m.m_rcode) (int_of_n m.m_an) (if m.m_tc then 1 else 0)
-                      | Some (_, DWrong) -> "W"
-                      | Some (_, _) -> "E"
-                      | None -> if c15_pending c s then "P" else "?") in
+             let mine = List.filter (fun ((c', _), _) -> c' = c) s.st_log in
+             let r =
+               if mu then
+                 let items = String.concat "" (List.map (fun (_, d) -> match d with DAnswer _ -> "A" | DWrong -> "W" | DEof -> "F" | DError _ -> "E") mine) in
+                 if List.exists is_term mine then items else items ^ (if c15_pending c s then "P" else "?")
+               else
+                 (match List.find_opt is_term mine with
+                  | Some (_, DAnswer m) -> Printf.sprintf "A%d.%d.%d" (int_of_n m.m_rcode) (int_of_n m.m_an) (if m.m_tc then 1 else 0)
+                  | Some (_, DWrong) -> "W"
+                  | Some (_, _) -> "E"
+                  | None -> if c15_pending c s then "P" else "?") in
              Printf.sprintf "%d=%s@%s" (int_of_n c) r wire in
            (if order = "" then "-" else order) ^ " | " ^ String.concat " " (List.map cls callers)
        | Panic _ -> "Panic" | Err _ -> "Err" | OutOfFuel -> "OutOfFuel")
